@@ -294,6 +294,29 @@ func c06(r *Report) {
 	})
 
 	r.Guard("C06.R5", "the template carries the configured organization, a validity window around now and server-auth usage", func() {
+		// "the configured organization" / validity: the public setters really configure the
+		// fields the template is filled from (a setter that drops its argument leaves the
+		// default in force whatever the user configures)
+		if cfgT := w.Named("mitm", "Config"); cfgT != nil {
+			for _, sf := range []struct{ method, field string }{{"SetOrganization", "org"}, {"SetValidity", "validity"}} {
+				fn := w.method(cfgT, sf.method)
+				if fn == nil || fn.Blocks == nil {
+					r.Undecided("(*M/mitm.Config)."+sf.method, "UNRESOLVED")
+					continue
+				}
+				r.Touch(fn)
+				ok := false
+				for _, sts := range fieldsWritten(fn) {
+					for _, st := range sts {
+						if fa, isFa := st.Addr.(*ssa.FieldAddr); isFa && fieldObj(fa).Name() == sf.field && len(fn.Params) > 1 && anyIn(w.backSlice(st.Val, flowOpt{}), func(v ssa.Value) bool { return v == ssa.Value(fn.Params[1]) }) {
+							ok = true
+						}
+					}
+				}
+				r.Decide("flow", "(*M/mitm.Config)."+sf.method+" stores its argument in "+sf.field, ok, "the parameter reaches the field the certificate template reads", "the setter does not store its argument in c."+sf.field+": issued certificates carry the default instead of the configured value", fn.Pos())
+			}
+		}
+
 		okOrg := false
 		if s := nestedFieldStores(tmpls[0], "Subject"); len(s["Organization"]) == 1 {
 			okOrg = sliceLitContains(w, s["Organization"][0].Val, func(v ssa.Value) bool { return cfgField(v, "org") })
